@@ -2233,17 +2233,22 @@ def get_data_into(
     contact_efc_address = d.contact.efc_address.numpy()[ncon_filter]
 
     efc_idx_c = []
-    contact_efc_address_ordered = [ne + nf + nl]
+    contact_efc_address_ordered = []
+    efc_adr = ne + nf + nl
     for i in range(ncon):
       dim = contact_dim[i]
       if mjm.opt.cone == mujoco.mjtCone.mjCONE_PYRAMIDAL:
         ndim = np.maximum(1, 2 * (dim - 1))
       else:
         ndim = dim
+      if contact_efc_address[i, 0] < 0:
+        # contact without constraint rows (e.g. distance inside the gap): no rows, address -1
+        contact_efc_address_ordered.append(-1)
+        continue
       efc_idx_c.append(contact_efc_address[i, :ndim])
-      if i < ncon - 1:
-        contact_efc_address_ordered.append(contact_efc_address_ordered[-1] + ndim)
-    efc_idx = np.concatenate((efc_idx_efl, *efc_idx_c))
+      contact_efc_address_ordered.append(efc_adr)
+      efc_adr += ndim
+    efc_idx = np.concatenate((efc_idx_efl, *efc_idx_c)).astype(int)
     contact_efc_address_ordered = np.array(contact_efc_address_ordered)
   else:
     efc_idx = np.array(np.arange(nefc))
